@@ -219,10 +219,21 @@ pub fn analyse_ops(model: &ModelDef, inputs: &[(String, TVal)], sels: &[u32]) ->
                             // the driver simplifies what it stores
                             match vcore::catch(|| t.clone().simplify()) {
                                 Ok(s) => {
+                                    // Symbolic element values are integers. For a float
+                                    // output only the shape part of the claim is used at
+                                    // this level (what the driver makes of float values is
+                                    // checked at the graph level).
+                                    let float_out = matches!(ex.values.get(oid), Some(TVal::F32 { .. }));
+                                    let shape_only: Option<Vec<SymExpr>> =
+                                        if float_out && s.values().is_some() { s.shape().map(|d| d.collect()) } else { None };
+                                    let s = match shape_only {
+                                        Some(dims) => SymTensor::from_shape(dims),
+                                        None => s,
+                                    };
                                     values.insert(*oid, s);
                                 }
                                 Err(p) => rep.fail(
-                                    format!("oplevel-simplify-panic:{}", p.signature()),
+                                    format!("infer-panic:{}", p.signature()),
                                     format!("simplify() of the inferred output {t:?} of {name} panicked: {} at {}", p.msg, p.loc()),
                                 ),
                             }
@@ -234,7 +245,7 @@ pub fn analyse_ops(model: &ModelDef, inputs: &[(String, TVal)], sels: &[u32]) ->
                     rep.label(&format!("oplevel-infer-err:{name}"));
                 }
                 Err(p) => rep.fail(
-                    format!("oplevel-infer-panic:{name}:{}", p.signature()),
+                    format!("infer-panic:{}", p.signature()),
                     format!("{name}.infer_shapes({descs:?}) panicked: {} at {} (the operator itself runs on inputs matching this description)", p.msg, p.loc()),
                 ),
             }
